@@ -1,5 +1,9 @@
 (* MODEL of /repo/psi/pmtdescriptor.go (decoders) and of the descriptor queries of
    /repo/psi/pmtelementarystream.go (MaxBitRate, IsTTMLSubtitling).  No proofs here.
+   The model follows the REPAIRED tree (/root/work/repo-fixed): F12 and the C05 length guards of
+   notes/c05-guards.patch (DecodeMaximumBitRate / DecodeIso639LanguageCode need len >= 3,
+   IsIFrameProfile stops at the end of the data, IsDolbyATMOS reads data[2] only when len >= 3).
+   The `_unguarded` / `_unrepaired` variants are the pinned functions, used only for `_refuted` witnesses.
    DecodeIso639AudioType is modelled as REPAIRED (defect F12, notes/candidate-fixes.patch:
    `descriptor.tag == LANGUAGE && len(descriptor.data) >= 4`); `audio_type_unrepaired` is the
    function as it stands in the pinned tree and is used only for the `_refuted` witness.
@@ -28,6 +32,15 @@ Definition is_ebp_descriptor (d : t) : bool := tag d =? EBP.
 
 (* uint32(data[0]&0x1f)<<16 | uint32(data[1])<<8 | uint32(data[2]); 0 for another tag *)
 Definition decode_maximum_bit_rate (d : t) : Res N :=
+  if is_maximum_bitrate_descriptor d && (3 <=? len (data d)) then
+    let? b0 := idx (data d) 0 in
+    let? b1 := idx (data d) 1 in
+    let? b2 := idx (data d) 2 in
+    Ok (N.lor (N.lor (N.shiftl (N.land b0 31) 16) (N.shiftl b1 8)) b2)
+  else Ok 0.
+
+(* pinned tree: no length test *)
+Definition decode_maximum_bit_rate_unguarded (d : t) : Res N :=
   if is_maximum_bitrate_descriptor d then
     let? b0 := idx (data d) 0 in
     let? b1 := idx (data d) 1 in
@@ -35,8 +48,10 @@ Definition decode_maximum_bit_rate (d : t) : Res N :=
     Ok (N.lor (N.lor (N.shiftl (N.land b0 31) 16) (N.shiftl b1 8)) b2)
   else Ok 0.
 
-(* string(data[0:3]) *)
+(* if LANGUAGE == tag && len(data) >= 3 { return string(data[0:3]) }; return "" *)
 Definition decode_iso639_language_code (d : t) : Res bytes :=
+  if (LANGUAGE =? tag d) && (3 <=? len (data d)) then slice (data d) 0 3 else Ok [].
+Definition decode_iso639_language_code_unguarded (d : t) : Res bytes :=
   if LANGUAGE =? tag d then slice (data d) 0 3 else Ok [].
 
 (* REPAIRED (F12): if descriptor.tag == LANGUAGE && len(descriptor.data) >= 4 { return data[3] }; return 0 *)
@@ -70,13 +85,28 @@ Fixpoint iframe_loop (n : nat) (dat : bytes) (offset : N) : Res bool :=
   match n with
   | O => Ok false
   | S k =>
+      if len dat <=? offset then Ok false (* truncated descriptor (C05 guard) *) else
+      let? b := idx dat offset in
+      let explicit := N.shiftr (N.land b 128) 7 =? 1 in
+      let repid := N.shiftr (N.land b 4) 6 =? 1 in
+      if explicit then
+        if len dat <=? offset + 1 then Ok false (* truncated descriptor (C05 guard) *) else
+        let? dist := idx dat (offset + 1) in Ok (dist =? 1)
+      else
+        iframe_loop k dat (if repid then offset + 2 + 8 else offset + 2)
+  end.
+(* pinned tree: no guards *)
+Fixpoint iframe_loop_unguarded (n : nat) (dat : bytes) (offset : N) : Res bool :=
+  match n with
+  | O => Ok false
+  | S k =>
       let? b := idx dat offset in
       let explicit := N.shiftr (N.land b 128) 7 =? 1 in
       let repid := N.shiftr (N.land b 4) 6 =? 1 in
       if explicit then
         let? dist := idx dat (offset + 1) in Ok (dist =? 1)
       else
-        iframe_loop k dat (if repid then offset + 2 + 8 else offset + 2)
+        iframe_loop_unguarded k dat (if repid then offset + 2 + 8 else offset + 2)
   end.
 Definition is_iframe_profile (d : t) : Res bool :=
   if (EBP =? tag d) && (0 <? len (data d)) then
@@ -88,17 +118,18 @@ Definition is_iframe_profile (d : t) : Res bool :=
   else Ok false.
 
 (* IsDolbyATMOS.  `start` is a uint8 that is at most 2+1+5+3*5 = 23 (no wrap); the scan runs over
-   i in [start, uint8(len(data))) - the length is truncated to 8 bits as in the code. *)
+   i in [start, uint8(len(data))) - the length is truncated to 8 bits as in the code.
+   C05 guard: `if bsid_flag && len(data) >= 3` (the pinned tree reads data[2] whenever bsid_flag). *)
 Definition is_dolby_atmos (d : t) : Res bool :=
   if (tag d =? EC3) && (2 <=? len (data d)) then
     let? b0 := idx (data d) 0 in
     let flag (m s : N) := N.shiftr (N.land b0 m) s =? 1 in
     let bsid := flag 64 6 in let mainid := flag 32 5 in let asvc := flag 16 4 in
     let sub1 := flag 4 2 in let sub2 := flag 2 1 in let sub3 := N.land b0 1 =? 1 in
-    let? lf12 := (if bsid then let? b2 := idx (data d) 2 in
+    let? lf12 := (if bsid && (3 <=? len (data d)) then let? b2 := idx (data d) 2 in
                     Ok (N.shiftr (N.land b2 128) 7 =? 1, N.shiftr (N.land b2 64) 6 =? 1)
                   else Ok (false, false)) in
-    let start := 2 + b2n bsid + b2n mainid + b2n asvc + b2n sub1 + b2n sub2 + b2n sub3
+    let start := 2 + b2n (bsid && (3 <=? len (data d))) + b2n mainid + b2n asvc + b2n sub1 + b2n sub2 + b2n sub3
                  + 3 * b2n (fst lf12) + 3 * b2n (snd lf12) + 3 * b2n sub1 + 3 * b2n sub2 + 3 * b2n sub3 in
     let stop := w8 (len (data d)) in
     Ok (existsb (fun b => b =? 1) (takeN (stop - start) (dropN start (data d))))
